@@ -48,6 +48,8 @@ def variants():
         ("ContentPack: tail width from data size only (F1)", "MC_ContentPack", p_content.mc_cfg(3, False, width_from_max=False, replay=False)),
         ("EntryStore: signed width from needed_bytes(max) (F2)", "MC_EntryStore", p_entries.mc_cfg("ints", 2, signed_rule="code").replace("Replay ", "")),
         ("EntryStore: reader closes a variant when its size is reached (F3)", "MC_EntryStore", p_entries.mc_cfg("variants", 3, reader_rule="size").replace("Replay ", "")),
+        ("EntryOrder: entries with equal keys compare Greater (the sort loop never accepts a key written twice)", "EntryOrder",
+         p_order.mc_cfg("find", KeyDomain="{0, 1, 2}", MaxSeq=3, Dups="TRUE", EqualIsGreater="TRUE").replace(" Replay", "").replace("PROPERTIES FindTerminates\n", "")),
         ("EntryOrder: columns sized before positions are reassigned", "EntryOrder", p_order.mc_cfg("refs", NEntries=4, SizeBeforeAssign="TRUE", Radix=2).replace(" Replay", "")),
         ("ClusterPipeline: tail offset not rebased", "ClusterPipeline", p_pipeline.mc_cfg(2, 4, 4, rebase=False)),
         ("ClusterPipeline: address table pushed in arrival order", "ClusterPipeline", p_pipeline.mc_cfg(2, 4, 4, index_assign=False)),
@@ -58,6 +60,7 @@ def variants():
         ("Decoder: length stored without the mutex", "Decoder", p_decoder.mc_cfg(3, 3, 1, may_fail=False, locked=False)),
         ("Decoder: publish before write", "Decoder", p_decoder.mc_cfg(3, 3, 1, may_fail=False, publish_first=True)),
         ("Decoder: failure not reported to readers (F10)", "Decoder", p_decoder.mc_cfg(3, 3, 1, report=False)),
+        ("ClusterCache: the cache owns the cluster objects (eviction frees a cluster a reader still uses)", "ClusterCache", p_decoder.CACHE_CFG % "FALSE"),
     ]
     ok = True
     for i, (what, module, cfg) in enumerate(runs):
